@@ -45,10 +45,18 @@ func c02Step(x *engine.Exec) []engine.Failure {
 		}
 	case world.KDelegate:
 		set(x.Op.D, x.Op.Denom, new(big.Int).Neg(x.Res.Amount.BigInt()))
+	case world.KReimport:
+		if x.Res.Err != nil {
+			out = append(out, fail("restart", "error", "genesis export/import failed: %v", x.Res.Err))
+		}
+		x.Cnt.Inc("restart.with_pending_entries")
 	case world.KSlash:
 		_, hit := ref.onSlash(x.Op.V, world.Rat(x.Res.EffFrac), prev.Time)
 		if hit > 0 {
 			x.Cnt.Inc("slash.hit_pending_entry")
+			if x.Prev.Used[ClsEnv] > 0 {
+				x.Cnt.Inc("slash.hit_pending_entry_after_restart")
+			}
 		}
 		if x.Res.Err != nil {
 			x.Cnt.Inc("slash.callback_error")
@@ -140,6 +148,34 @@ func c02Scenario(name string, unbonding time.Duration, tier string, budgets []in
 	}
 }
 
+// c02Restart: the chain is restarted from a genesis export while unbondings are pending (packed: one delegator, one
+// block, two validators and two denoms, a second delegator in the same block); the restarted chain must slash and pay
+// them exactly as the original would have.
+func c02Restart(tier string) *engine.Scenario {
+	cfg := world.DefaultConfig()
+	cfg.Assets[0].TakeRate = "0"
+	seed := []world.Op{opDel(0, 0, "aaa", "1000"), opDel(0, 1, "aaa", "1000"), opDel(0, 0, "bbb", "1000"), opDel(1, 0, "aaa", "1000"), opBlock(1),
+		opUnd(0, 0, "aaa", "7"), opUnd(0, 0, "bbb", "9"), opUnd(0, 1, "aaa", "11"), opUnd(1, 0, "aaa", "13")}
+	al := Alpha{
+		SlashVals: []int{0, 1}, SlashF: []string{"0.333333333333333333", "0.5"},
+		BlockDts: dts(1, 3, 4),
+		Extra: func(n *engine.Node) []world.Op {
+			ops := []world.Op{{K: world.KReimport, Class: ClsEnv}}
+			for _, pos := range [][3]any{{0, 0, "aaa"}, {0, 0, "bbb"}, {1, 0, "aaa"}} {
+				ops = append(ops, world.Op{K: world.KUndelegate, D: pos[0].(int), V: pos[1].(int), Denom: pos[2].(string), Amt: "5", Class: ClsUser})
+			}
+			return ops
+		},
+	}
+	return &engine.Scenario{
+		Property: "C02", Name: "c02-restart", Cfg: cfg, Stores: world.ModuleStores,
+		Seeds: [][]world.Op{seed}, ClassNames: classNames, Budgets: tierPick(tier, []int{2, 1, 1, 3, 0}, []int{3, 2, 2, 4, 0}), MaxDepth: tierPick(tier, 7, 9),
+		NewRef: func(w *world.World, root *engine.Node) engine.Ref { return newPendRef() },
+		Ops:    al.Ops, Step: c02Step, SeedStep: true,
+		Required: []string{"payouts", "restart.with_pending_entries", "slash.hit_pending_entry_after_restart"},
+	}
+}
+
 // c02LastAsset: pending unbondings must still be paid (and slashed) after governance deleted their asset - including
 // the case where no alliance asset is left at all.
 func c02LastAsset(tier string) *engine.Scenario {
@@ -191,12 +227,14 @@ func init() {
 		Scenarios: func(tier string) []*engine.Scenario {
 			if tier == "thorough" {
 				return []*engine.Scenario{
+					c02Restart(tier),
 					c02LastAsset(tier),
 					c02Scenario("c02-unbonding3u", 3*U, tier, []int{4, 2, 1, 5, 0}, 10),
 					c02Scenario("c02-unbonding1u", 1*U, tier, []int{4, 2, 1, 4, 0}, 9),
 				}
 			}
 			return []*engine.Scenario{
+				c02Restart(tier),
 				c02LastAsset(tier),
 				c02Scenario("c02-unbonding3u", 3*U, tier, []int{3, 1, 1, 3, 0}, 6),
 				c02Scenario("c02-unbonding1u", 1*U, tier, []int{2, 1, 1, 3, 0}, 5),
